@@ -1504,3 +1504,20 @@ Proof.
   rewrite !cnt3_app, HA, HB. destruct Ac as [[a1 a2] a3], Bc as [[b1 b2] b3].
   destruct (ce_search c); cbn; f_equal; [f_equal| |f_equal|]; lia.
 Qed.
+
+(* ------------------------------------------------------------------------------------------ *)
+(** * witnesses for the clause language *)
+Definition w_paged_agg : aquery :=      (* Person(order_by(nat asc), after("en")) { nat total: count() } *)
+  {| aq_sel := [ASField FString false; ASAgg ACount FString]; aq_search := None; aq_order := [KEnt FString false];
+     aq_first := None; aq_skip := None; aq_before := [];
+     aq_after := [AStr {| s_b64 := false; s_json := false; s_uid := UNot16 |}];
+     aq_filters := []; aq_nullable := []; aq_params := [] |}.
+Definition w_ref_filter_agg : aquery :=  (* Person(pets = null) { total: count() } *)
+  {| aq_sel := [ASAgg ACount FString]; aq_search := None; aq_order := []; aq_first := None; aq_skip := None;
+     aq_before := []; aq_after := []; aq_filters := [(KEntRef, true, ANull)]; aq_nullable := []; aq_params := [] |}.
+
+Lemma clause_witnesses_w :
+  aquery_valid w_paged_agg = true /\ known_C14 (CAgg w_paged_agg) = [] /\ run_C14 (CAgg w_paged_agg) = [0; 1] /\
+  emit_clauses w_paged_agg = [CCond; CGroup; CHaving; CCond; COrder] /\
+  aquery_valid w_ref_filter_agg = true /\ aquery_outcome w_ref_filter_agg = OErr /\ known_C14 (CAgg w_ref_filter_agg) = [8].
+Proof. vm_compute. repeat split; reflexivity. Qed.
